@@ -1020,6 +1020,33 @@ def spline_degree_of_code(n, rng):
     return deg
 
 
+def resolution_slack(spec, mats):
+    """What the analytical evolution may differ by from the time-ordered product of the stated Hamiltonian because of structure
+    below the resolution tol = 1e-10 of the merged grid (Lean: merged_covers + fill_catchup_near - a point merged away is
+    represented by a merged point at most tol below it, the resampled value at T_k is the step function at some time within
+    tol of T_k): the resampled Hamiltonian differs from the stated one only near CLUSTERS of channel points (maximal runs of the
+    sorted union with consecutive gaps <= 3e-10), for a time of at most (span of the cluster + tol), by at most
+    sum_channels 2 max|coeff| ||H_channel||_2.  The bound is  2 x sum_clusters (span + tol) x sum_channels 2 max|c| ||H||  (safety
+    factor 2); 0 for a spec without such clusters - the band stays 1e-9 then."""
+    pts = sorted({float(t) for ch in spec["chans"] if ch.get("tlist") is not None for t in ch["tlist"]})
+    clusters, run = [], None
+    for a, b in zip(pts[:-1], pts[1:]):
+        if 0 < b - a <= 3e-10:
+            run = [run[0], b] if run else [a, b]
+        elif run:
+            clusters.append(run)
+            run = None
+    if run:
+        clusters.append(run)
+    if not clusters:
+        return 0.0
+    amp = 0.0
+    for ch, M in zip(spec["chans"], mats):
+        cmax = 1.0 if is_const(ch) else max([abs(float(c)) for c in ch["coeff"]] + [0.0])
+        amp += 2.0 * cmax * float(np.linalg.norm(M, 2))
+    return 2.0 * sum((hi - lo) + 1e-10 for lo, hi in clusters) * amp
+
+
 def coeffs_mismatch(spec, T, C, exact=False):
     """get_full_coeffs against the stated coefficients: column k is the value the channel has INSIDE the merged slice
     [T_k, T_k+1) (evaluated at the midpoint: the merged grid contains every breakpoint up to rounding, so the stated
@@ -1338,7 +1365,7 @@ def probe_state(p, state, probes, fresh=True):
                     return d
             elif pr == "analytic":
                 err = float(np.abs(_product(p.run_analytically(), n) - Uref).max())
-                if err > 1e-9:
+                if err > 1e-9 + resolution_slack(state, mats):
                     return f"run_analytically differs from the time-ordered product of the CURRENT stated Hamiltonian by {err:.3e}"
             elif pr == "controls":
                 cs = p.controls
@@ -1380,7 +1407,7 @@ def probe_state(p, state, probes, fresh=True):
                     p2 = build_state_processor(state, via="add_control")
                     p2.read_coeff(fn)
                     err = float(np.abs(_product(p2.run_analytically(), n) - Uref).max())
-                    if err > 1e-9:
+                    if err > 1e-9 + resolution_slack(state, mats):
                         return f"after save_coeff / read_coeff run_analytically differs from the time-ordered product by {err:.3e}"
                 finally:
                     shutil.rmtree(dd, ignore_errors=True)
@@ -1860,6 +1887,9 @@ class C14(PropertyCheck):
     ]
     assumptions = ["no noise configured; spline_kind = step_func for the proved part",
                    "distinct grid points of all channels differ by more than tol (SepAll) for the containment / resampling theorems",
+                   "numeric band of run_analytically against the expm product: 1e-9, widened only for specs with clusters of channel "
+                   "points closer than 3e-10 by 2 x sum_clusters (span + 1e-10) x sum_channels 2 max|coeff| ||H_channel||_2 (what "
+                   "mis-assigned slices of length <= tol can contribute; resolution_slack), i.e. a few 1e-9 at most",
                    "class grid-step-below-tol (known finding, excluded by SepAll): a channel whose own grid has a slot not longer than "
                    "tol = 1e-10; members are evaluated and reported as KNOWN-FINDING once the class is recorded in known_findings.json"]
     rule = ("exact stream: case = (1-4 channels with independent strictly increasing dyadic grids starting at 0 and ending at different "
@@ -1875,7 +1905,9 @@ class C14(PropertyCheck):
             "t ~ 1, 20, 1e3, 1e6; container stream: integer-dtype / float32 / list / tuple time grids and float32 / integer coefficient "
             "arrays with exactly representable values; aliasing stream: one array object as coefficient / tlist of several channels "
             "(full-length and short form), solver path called before the resampling path, caller's arrays snapshot-compared; "
-            "malformed inputs and save/reload are counted with their own tags")
+            "malformed inputs and save/reload are counted with their own tags; numeric band of run_analytically 1e-9, widened only "
+            "for specs with clusters of channel points closer than 3e-10 by 2 x sum_clusters (span + 1e-10) x sum_channels 2 max|c| "
+            "||H_channel||_2 (resolution_slack)")
 
     def regenerate(self, ctx):
         FLAGS.update(detect_flags())
@@ -2206,8 +2238,10 @@ class C14(PropertyCheck):
         U = np.eye(Uref.shape[0], dtype=complex)
         for u in Ul:
             U = u.full() @ U
-        if np.abs(U - Uref).max() > 1e-9:
-            return f"run_analytically differs from the ordered expm product by {np.abs(U - Uref).max():.3e}"
+        band = 1e-9 + resolution_slack(spec, mats)        # 1e-9 unless the spec has structure below the grid resolution
+        if np.abs(U - Uref).max() > band:
+            return (f"run_analytically differs from the ordered expm product by {np.abs(U - Uref).max():.3e}"
+                    + (f" (band {band:.2e})" if band > 1e-9 else ""))
         d = solver_operator_mismatch(p, spec, Tm, drift_full, mats)
         if d:
             return d
@@ -2230,7 +2264,7 @@ class C14(PropertyCheck):
                 U2 = np.eye(Uref.shape[0], dtype=complex)
                 for u in Ul2:
                     U2 = u.full() @ U2
-                if np.abs(U2 - Uref).max() > 1e-9:
+                if np.abs(U2 - Uref).max() > band:
                     return f"after save/reload run_analytically differs by {np.abs(U2 - Uref).max():.3e}"
             finally:
                 shutil.rmtree(d, ignore_errors=True)
@@ -2522,8 +2556,10 @@ class C14(PropertyCheck):
                     U = u.full() @ U
             except Exception as e:
                 return True, f"implementation raised {type(e).__name__}: {e}"
-            if np.abs(U - Uref).max() > 1e-9:
-                return True, f"run_analytically differs from the time-ordered product by {np.abs(U - Uref).max():.3e}"
+            band = 1e-9 + resolution_slack(spec, mats)    # 1e-9 unless the spec has structure below the grid resolution
+            if np.abs(U - Uref).max() > band:
+                return True, (f"run_analytically differs from the time-ordered product by {np.abs(U - Uref).max():.3e}"
+                              + (f" (band {band:.2e})" if band > 1e-9 else ""))
             d = handed_after("run_analytically") or solver_operator_mismatch(p, spec, T, drift_full, mats) or handed_after("get_qobjevo")
             if d:
                 return True, d
@@ -2552,7 +2588,7 @@ class C14(PropertyCheck):
                         U2 = u.full() @ U2
                 except Exception as e:
                     return True, f"save_coeff / read_coeff / run_analytically after the reload raised {type(e).__name__}: {e}"
-                if np.abs(U2 - Uref).max() > 1e-9:
+                if np.abs(U2 - Uref).max() > band:
                     return True, f"after save/reload run_analytically differs from the time-ordered product by {np.abs(U2 - Uref).max():.3e}"
                 d = handed_after("save_coeff / read_coeff")
                 if d:
